@@ -627,3 +627,19 @@ LEVEL_TEXT += _ADDR5D
 _ADDR5F = ' R20.10: a default that Instance.fields reads from the class namespace is filtered for slot member descriptors (dataclasses with slots=True keep one under every field name), so `default` is always a value.'
 EXPLANATION += _ADDR5F
 LEVEL_TEXT += _ADDR5F
+
+
+_run_before_r6 = run
+
+
+def run(repo, rep, tier):  # noqa: F811 -- round-6 shape rules appended to the rules above
+    _run_before_r6(repo, rep, tier)
+    if getattr(rep, "borrowed", False):
+        return
+    from ..core import round6 as _r6
+    _r6.nullability_through_annotated(repo, rep, "R05.14")
+
+
+_ADDR6A = ' Borrowed: R05.14 (nullability of Annotated[Optional[X], ...] positions).'
+EXPLANATION += _ADDR6A
+LEVEL_TEXT += _ADDR6A
